@@ -846,7 +846,7 @@ Proof.
         * inversion Hn; subst. left. f_equal. lia.
         * destruct j; discriminate. }
   eapply Permutation_in in Hk; [|symmetry; exact Ia]. apply in_map_iff in Hk. destruct Hk as (it & Hkey & Hin).
-  inversion Hkey; subst. exists it. repeat split; auto.
+  inversion Hkey; subst. exists it. split; [auto|]. split; [auto|]. split; [auto|]. split.
   - rewrite Io. apply in_map. exact Hin.
   - apply rsp_of_answers.
 Qed.
@@ -859,9 +859,13 @@ Proof.
   inversion H as [|x y Hs Hr]; subst x y. specialize (IH Hr).
   assert (Hm : length (lane_items rest) * (cps * length rest + 1) <= length (lane_items rest) * (cps * S (length rest) + 1))
     by (apply Nat.mul_le_mono_l; lia).
-  destruct s as [[e cl]|]; cbn [slot_w lane_items flat_map slot_items app length] in *.
-  - fold (lane_items rest). replace (cps * S (length rest)) with (cps + length rest * cps) by lia. lia.
-  - fold (lane_items rest). lia.
+  destruct s as [[e cl]|]; cbn [slot_w lane_items flat_map slot_items app length] in *;
+    change (flat_map slot_items rest) with (lane_items rest) in *.
+  - rewrite Nat.mul_succ_l. cbn in Hs.
+    pose proof (Nat.mul_succ_r cps (length rest)). pose proof (Nat.mul_comm cps (length rest)).
+    remember (length (lane_items rest) * (cps * S (length rest) + 1)) as A.
+    remember (length (lane_items rest) * (cps * length rest + 1)) as B. lia.
+  - lia.
 Qed.
 
 Lemma lanes_w_bound cps n (ls : list (list (slot item))) :
@@ -881,7 +885,7 @@ Proof.
   { unfold dq_w, Wp. induction (b_delayq b) as [|[it n] q IH]; cbn [map list_sum fold_right length snd]; [lia|].
     inversion Wd; subst. cbn in *. specialize (IH H2). fold (list_sum (map (fun x : item * nat => snd x + 1 + E c) q)) in *. lia. }
   assert (H2 : pipe_w (b_pipe b) <= length (pipe_items (b_pipe b)) * Wp c).
-  { unfold pipe_w, pipe_items. pose proof (lanes_w_bound _ _ _ W2 W3) as Hl. rewrite Wc, Wn in Hl.
+  { unfold pipe_w, pipe_items. pose proof (lanes_w_bound _ _ _ W2 W3) as Hl. rewrite Wc, Wn in *.
     etransitivity; [exact Hl|]. apply Nat.mul_le_mono_l. unfold Wp, E. lia. }
   assert (H3 : length (b_post b) <= length (b_post b) * Wp c) by (unfold Wp; nia).
   lia.
@@ -893,6 +897,69 @@ Proof.
   intros [Scf _ Sb]. unfold mu, items. rewrite Scf, app_length.
   assert (H : banks_w c (banks s) <= length (banks_items (banks s)) * Wp c).
   { unfold banks_w, banks_items. induction (banks s) as [|b r IH]; cbn [map flat_map length]; [cbn; lia|].
-    inversion Sb; subst. rewrite list_sum_cons, app_length. pose proof (bank_w_bound c b H1). specialize (IH H2). lia. }
+    inversion Sb as [|x y H1 H2]; subst x y. rewrite list_sum_cons, app_length. pose proof (bank_w_bound c b H1). specialize (IH H2). lia. }
   nia.
+Qed.
+
+(** ** Statements used by props/C17.v *)
+Lemma reach_good c evs : wf_cfg c = true -> Forall (fun e => wf_ev c e = true) evs ->
+  Good c (run (init c) evs).
+Proof. intros Hc Hw. apply run_good; auto. apply init_good; auto. Qed.
+
+Lemma no_panic c evs : wf_cfg c = true -> Forall (fun e => wf_ev c e = true) evs ->
+  crashed (run (init c) evs) = false /\ ~ In OCrash (run_obs (init c) evs).
+Proof.
+  intros Hc Hw. split.
+  - apply (gd_alive c). apply reach_good; auto.
+  - apply (run_obs_no_crash c); auto. apply init_good; auto.
+Qed.
+
+Lemma fair_round_decreases c evs : wf_cfg c = true -> Forall (fun e => wf_ev c e = true) evs ->
+  let s := run (init c) evs in
+  mu (round s) <= mu s /\ (busy s -> mu (round s) < mu s) /\
+  mu s <= (length (top_in s) + length (items s)) * (c_missdelay c + c_cps c * c_depth c + 4).
+Proof.
+  intros Hc Hw s. pose proof (reach_good c evs Hc Hw) as G. fold s in G.
+  destruct (round_live c s Hc G) as (_ & L1 & L2 & _). split; [auto|]. split; [auto|].
+  replace (c_missdelay c + c_cps c * c_depth c + 4) with (Wp c + 1) by (unfold Wp, E; lia).
+  apply mu_bound. apply G.
+Qed.
+
+Lemma every_request_answered c evs : wf_cfg c = true -> Forall (fun e => wf_ev c e = true) evs ->
+  let s := run (init c) evs in
+  exists n, n <= (length (top_in s) + length (items s)) * (c_missdelay c + c_cps c * c_depth c + 4) /\
+    let s' := rounds n s in
+    crashed s' = false /\ g_deliv s' = g_deliv s /\ top_in s' = [] /\ items s' = [] /\
+    Permutation (map key (g_done s')) (keys_of (g_deliv s)) /\
+    forall k r, nth_error (g_deliv s) k = Some r ->
+      exists m, In m (g_retr s' ++ top_out s') /\ answers m r.
+Proof.
+  intros Hc Hw s. pose proof (reach_good c evs Hc Hw) as G. fold s in G.
+  destruct (drains c Hc (mu s) s (le_n _) G) as (n & N1 & N2 & N3 & N4).
+  exists n. split.
+  { etransitivity; [exact N1|].
+    replace (c_missdelay c + c_cps c * c_depth c + 4) with (Wp c + 1) by (unfold Wp, E; lia).
+    apply mu_bound. apply G. }
+  cbn zeta. destruct (idle_answered _ (gd_inv _ _ N3) N2) as (I1 & I2 & I3).
+  split; [apply (gd_alive c); auto|]. split; [auto|].
+  unfold busy in N2.
+  split; [destruct (top_in (rounds n s)); auto; exfalso; apply N2; left; discriminate|].
+  split; [destruct (items (rounds n s)); auto; exfalso; apply N2; right; discriminate|].
+  rewrite N4 in *. split; [auto|]. intros k r Hn.
+  destruct (I3 k r Hn) as (it & _ & _ & _ & Hin & Ha). eauto.
+Qed.
+
+(** the well-formedness hypotheses include the absence of uint64 wrap-around *)
+Lemma wf_req_no_wrap c r : wf_req c r = true -> (m_addr r + req_len r <= two64)%N.
+Proof.
+  unfold wf_req. intros H. apply andb_prop in H. destruct H as [_ H]. apply N.leb_le. exact H.
+Qed.
+
+Lemma wf_cfg_no_wrap c : wf_cfg c = true ->
+  (c_log2ilv c < 64)%N /\ (c_capacity c + unit_size < two64)%N /\
+  ilv_fits (c_aconv c) = true /\ ilv_fits (c_bconv c) = true.
+Proof.
+  unfold wf_cfg. intros H.
+  repeat (apply andb_prop in H; let H' := fresh "P" in destruct H as [H H']).
+  apply N.ltb_lt in P2. apply N.ltb_lt in P1. auto.
 Qed.
